@@ -239,6 +239,8 @@ func main() {
 			if sc.closer {
 				vrt.GoNamed("closer", func() { w.push.Close() })
 			}
+			// keep virtual time running until every retry tick of the push task has been taken
+			vrt.GoNamed("horizon", func() { vtime.Sleep(300 * vtime.Second) })
 		}
 		return &vx.Sched{Run: r, Name: sc.name, Body: body, MaxPreempt: bound, MaxSteps: 4000,
 			Check: func(res *vrt.Result) string {
